@@ -4,6 +4,6 @@ set -e
 HERE="$(cd "$(dirname "$0")" && pwd)"
 export CARGO_NET_OFFLINE=true
 cd "$HERE/harness"
-for c in vcore vapp vsum; do
+for c in vcore vapp vsum vloom; do
   cargo build --release --offline -p $c
 done
